@@ -142,7 +142,9 @@ def _sample(cls, name):
     for t in c:
         try:
             col = cls.build(name, t)
-            if not col.validate() and str(col) == t:
+            # (a class over a base that is not a custom column builds a plain MafColumnRecord, which no
+            #  record of that scheme accepts: C14's known finding .../base-is-not-a-custom-column; no sample then)
+            if isinstance(col, cls) and not col.validate() and str(col) == t:
                 return t
         except Exception:
             pass
@@ -455,6 +457,7 @@ def oracle(case, obs):
                 pairs = [tuple(s[:2]) if s != ["norestr"] else tuple(C14.NOREST) for s in o["ok"]]
                 if len(set(pairs)) != len(pairs):
                     out.append("two-schemes-for-one-pair " + where)
+                out.extend(p + " " + where for p in C14.list_order_problems([s[:2] if s != ["norestr"] else s for s in o["ok"]]))
                 if sure and st != "ill":
                     got = {tuple(s[:2]): s[2] for s in o["ok"] if s != ["norestr"]}
                     if got != expected:
